@@ -208,10 +208,10 @@ theorem reads_of_prAtoms_ne_zero (σ σ' : Val) {w : List Iv} {vs : List Var} (h
         (List.mem_append_right _ (List.mem_map.mpr ⟨v, hv, rfl⟩))).symm
 
 /-- a probability with a non-zero value is read by some assignment -/
-theorem den_ne_zero_reads (σ σ' : Val) {w : List Iv} (pop : Option Var) {c p : List Var} (hc : c ≠ [])
+theorem den_ne_zero_reads (σ σ' : Val) {w : List Iv} (pop : Option Var) {c p : List Var} (hcp : c ++ p ≠ [])
     (hw : ∀ v ∈ c ++ p, v.ivs = w) (h0 : den (M.env G) σ' (.prob pop c p) σ ≠ 0) :
     ∃ ρ, Reads ρ σ σ' w (c ++ p) := by
-  apply reads_of_prAtoms_ne_zero σ σ' (by simp [hc]) hw
+  apply reads_of_prAtoms_ne_zero σ σ' hcp hw
   intro hz
   apply h0
   simp only [den, Scm.env]
